@@ -37,9 +37,18 @@ func (x *Exec) newSliceHeader(st *State, base, off, ln, cp Term) Term {
 	return s
 }
 
+// sliceElem reads s[i] in specifications through a "row view" of the slice so
+// that quantifier triggers contain the index variable itself (not off+i,
+// which arithmetic normalisation would hide from E-matching).
 func (x *Exec) sliceElem(st *State, s, i Term, el types.Type) Term {
-	arr := x.heapGet(st, x.elemsArr(el), SArr(SInt, SArr(x.idxSort(), x.sortOf(el))))
-	return Select(Select(arr, x.slBase(s)), Add(x.slOff(s), i))
+	asort := SArr(SInt, SArr(x.idxSort(), x.sortOf(el)))
+	arr := x.heapGet(st, x.elemsArr(el), asort)
+	rowSort := SArr(x.idxSort(), x.sortOf(el))
+	name := "slrow!" + typeName(el) + "!" + string(x.sortOf(el))
+	row := x.d.Fun(name, []Sort{asort, SInt}, rowSort)
+	a, sv, k := Term{"a!r", asort}, Term{"s!r", SInt}, Term{"k!r", x.idxSort()}
+	x.d.Axiom(Forall([]Term{a, sv, k}, Eq(Select(row(a, sv), k), Select(Select(a, x.slBase(sv)), Add(x.slOff(sv), k))), []Term{Select(row(a, sv), k)}))
+	return Select(row(arr, s), i)
 }
 
 func (x *Exec) boundsCheck(cfg *Config, i, n Term, what string, pos token.Pos) {
@@ -84,7 +93,7 @@ func (x *Exec) indexAddr(cfg *Config, f *Frame, i *ssa.IndexAddr) Val {
 		if isStructType(el) {
 			unsupported("slice of structs")
 		}
-		return AddrV{Kind: aElem, Arr: x.elemsArr(el), Base: x.slBase(s), Idx: Add(x.slOff(s), idx), Elem: el}
+		return AddrV{Kind: aElem, Arr: x.elemsArr(el), Base: x.slBase(s), Idx: Add(x.slOff(s), idx), Elem: el, Slice: s, SIdx: idx}
 	}
 	if el := derefType(xt); el != nil {
 		if at, ok := el.Underlying().(*types.Array); ok {
